@@ -35,7 +35,7 @@ type client struct {
 	s      *memsock.Sock
 	ch     uint8
 	seq    uint8
-	read   func() (uint32, bool, bool) // id, open, timedOut
+	read   func(to <-chan time.Time) (uint32, bool, bool) // id, open, timedOut
 	close  func()
 	group  bool
 	tunnel bool
@@ -77,7 +77,7 @@ func start(kind string) (*client, error) {
 			return nil, err
 		}
 		in := t.Inbound()
-		c.read = func() (uint32, bool, bool) {
+		c.read = func(to <-chan time.Time) (uint32, bool, bool) {
 			select {
 			case m, ok := <-in:
 				if !ok {
@@ -85,7 +85,7 @@ func start(kind string) (*client, error) {
 				}
 				id, _ := gateway.IDOfMessage(m)
 				return id, true, false
-			case <-time.After(5 * time.Second):
+			case <-to:
 				return 0, true, true
 			}
 		}
@@ -99,7 +99,7 @@ func start(kind string) (*client, error) {
 			return nil, err
 		}
 		in := rt.Inbound()
-		c.read = func() (uint32, bool, bool) {
+		c.read = func(to <-chan time.Time) (uint32, bool, bool) {
 			select {
 			case m, ok := <-in:
 				if !ok {
@@ -107,7 +107,7 @@ func start(kind string) (*client, error) {
 				}
 				id, _ := gateway.IDOfMessage(m)
 				return id, true, false
-			case <-time.After(5 * time.Second):
+			case <-to:
 				return 0, true, true
 			}
 		}
@@ -141,8 +141,8 @@ func start(kind string) (*client, error) {
 	return c, nil
 }
 
-func groupReader(in <-chan knx.GroupEvent) func() (uint32, bool, bool) {
-	return func() (uint32, bool, bool) {
+func groupReader(in <-chan knx.GroupEvent) func(to <-chan time.Time) (uint32, bool, bool) {
+	return func(to <-chan time.Time) (uint32, bool, bool) {
 		select {
 		case ev, ok := <-in:
 			if !ok {
@@ -153,20 +153,39 @@ func groupReader(in <-chan knx.GroupEvent) func() (uint32, bool, bool) {
 				return 0xffffffff, true, false
 			}
 			return uint32(d[1])<<24 | uint32(d[2])<<16 | uint32(d[3])<<8 | uint32(d[4]), true, false
-		case <-time.After(5 * time.Second):
+		case <-to:
 			return 0, true, true
 		}
 	}
 }
 
 // inject hands telegram id to the client in acceptance order.
-func (c *client) inject(id uint32) bool {
+func (c *client) inject(id uint32) bool { return c.injectMode(id, nil) }
+
+// injectMode: with a timer the frame is offered directly (stress mode).
+func (c *client) injectMode(id uint32, fast *time.Timer) bool {
+	var svc knxnet.Service
 	if c.tunnel {
-		ok := c.s.Deliver(&knxnet.TunnelReq{Channel: c.ch, SeqNumber: c.seq, Payload: gateway.Ind(id)})
+		svc = &knxnet.TunnelReq{Channel: c.ch, SeqNumber: c.seq, Payload: gateway.Ind(id)}
 		c.seq++
-		return ok
+	} else {
+		svc = &knxnet.RoutingInd{Payload: gateway.Ind(id)}
 	}
-	return c.s.Deliver(&knxnet.RoutingInd{Payload: gateway.Ind(id)})
+	if c.s.BridgeAddr2() != "" {
+		return c.s.Deliver(svc)
+	}
+	var taken, expired bool
+	if fast != nil {
+		taken, expired = c.s.DeliverFast(svc, fast)
+	} else {
+		taken, expired = c.s.DeliverTimeout(svc, 10*time.Second)
+	}
+	if expired {
+		r.Violate("order.receive-loop-stuck", map[string]string{"client": c.kind}, map[string]interface{}{"goroutines": mon.LibGoroutines("knx-go/knx.")},
+			"[%s] the client's receive loop stopped taking frames (blocked while handing a telegram to the application side)", c.kind)
+		return false
+	}
+	return taken
 }
 
 var (
@@ -197,8 +216,10 @@ func burst(c *client, base uint32, n int, behaviour string, maxInFlight int, rng
 		if behaviour == "stalled" {
 			<-startRead
 		}
+		rt := time.NewTimer(8 * time.Second) // for the whole burst
+		defer rt.Stop()
 		for len(got) < n {
-			id, open, to := c.read()
+			id, open, to := c.read(rt.C)
 			if !open || to {
 				return
 			}
@@ -209,8 +230,18 @@ func burst(c *client, base uint32, n int, behaviour string, maxInFlight int, rng
 					time.Sleep(time.Duration(d) * time.Microsecond)
 				}
 			}
+			if (behaviour == "bursty" || behaviour == "bursty-fast") && len(got)%8 == 0 {
+				t0 := time.Now()
+				for time.Since(t0) < 5*time.Microsecond {
+				}
+			}
 		}
 	}()
+	var fast *time.Timer
+	if behaviour == "ready-fast" || behaviour == "bursty-fast" {
+		fast = time.NewTimer(10 * time.Second)
+		defer fast.Stop()
+	}
 	for i := 0; i < n; i++ {
 		if maxInFlight > 0 {
 			if behaviour == "stalled" && i == maxInFlight {
@@ -225,10 +256,10 @@ func burst(c *client, base uint32, n int, behaviour string, maxInFlight int, rng
 			}
 		}
 		atomic.AddInt32(&inFlight, 1)
-		if !c.inject(base + uint32(i)) {
+		if !c.injectMode(base+uint32(i), fast) {
 			return got, false
 		}
-		if rng.Intn(4) == 0 {
+		if fast == nil && rng.Intn(4) == 0 {
 			time.Sleep(time.Duration(rng.Intn(60)) * time.Microsecond)
 		}
 	}
@@ -327,7 +358,7 @@ func run(rr *mon.Run) {
 			r.Crumb("C17 %s rep=%d", kind, rep)
 			okAll := true
 			one := func(n int, behaviour string, maxIF int, strict bool) {
-				if !okAll {
+				if !okAll || r.Enough() {
 					return
 				}
 				sig := fmt.Sprintf("%s n=%d consumer=%s in-flight<=%d rep=%d base=%d", kind, n, behaviour, maxIF, rep, base)
@@ -361,6 +392,12 @@ func run(rr *mon.Run) {
 					n = 2 + rng.Intn(5)
 				}
 				one(n, []string{"stalled", "intermittent", "ready"}[i%3], 0, false)
+			}
+			// stress: many back-to-back bursts of 64 against a reader that is always
+			// ready or pauses after every few telegrams: the windows in which a hand-over
+			// can overtake a queued telegram are a few instructions wide
+			for i := 0; i < r.Pick(4000, 60000); i++ {
+				one(64, []string{"ready-fast", "bursty-fast"}[i%2], 0, false)
 			}
 			c.close()
 		}
